@@ -34,9 +34,11 @@ pub enum Cb {
     Closure = 7,
     /// the payload's destructor (armed only while a handle is being released by a `drop` op)
     Drop = 8,
+    /// `Default::default` of a payload, called by `Arc::default`
+    Default = 9,
 }
-pub const NCB: usize = 9;
-pub const CB_NAMES: [&str; NCB] = ["iter.next", "iter.len", "iter.size_hint", "clone", "cmp", "hash", "fmt", "closure", "drop"];
+pub const NCB: usize = 10;
+pub const CB_NAMES: [&str; NCB] = ["iter.next", "iter.len", "iter.size_hint", "clone", "cmp", "hash", "fmt", "closure", "drop", "default"];
 
 thread_local! {
     static DROP_CTX: std::cell::Cell<bool> = const { std::cell::Cell::new(false) };
@@ -380,6 +382,7 @@ macro_rules! tracked_shape {
         }
         impl Default for $name {
             fn default() -> Self {
+                callback(Cb::Default);
                 Self::fresh()
             }
         }
@@ -485,6 +488,7 @@ macro_rules! nodrop_shape {
         }
         impl Default for $name {
             fn default() -> Self {
+                callback(Cb::Default);
                 Self::fresh()
             }
         }
@@ -585,6 +589,7 @@ impl Clone for Z0 {
 }
 impl Default for Z0 {
     fn default() -> Self {
+        callback(Cb::Default);
         Z0::fresh()
     }
 }
